@@ -125,6 +125,9 @@ func mintPool() {
 	add("leaf", pki.Mint(leaf("leaf0"), i1))
 	add("leaf", pki.Mint(leaf("leaf1"), i2))
 	add("leaf", pki.Mint(leaf("leaf2"), r2))
+	// a non-CA certificate whose subject NAME equals its issuer's name (root1) but which is signed
+	// by root1's key: self-issued by name only, neither a CA nor self-signed
+	add("leaf", pki.Mint(leaf("root1"), r1))
 	add("ssleaf", pki.Mint(leaf("ssleaf0"), nil))
 	sp = leaf("ssleaf1")
 	sp.EKU = nil
